@@ -196,7 +196,8 @@ def _decoder_native(h, g):
 
 def _datagram_received(h, g):
     if not h.symbolic:
-        return
+        from replay import native_readings as NR
+        return NR.discovery_datagram_received(h, g, GEN)
     G = GEN[g]
     case = h.choice("structure", cases(g))
     d = datagram(h, g, case)
@@ -392,7 +393,8 @@ def _open_socket(h, g):
     socket bound to the generation's discovery port, the protocol decodes with the generation's decoder,
     and every decoded response ends up in the caller's set - once (duplicates collapse)."""
     if not h.symbolic:
-        return
+        from replay import native_readings as NR
+        return NR.discovery_open_socket(h, g, GEN)
     G = GEN[g]
     w = World(h.it)
     cfg = h.get(G["mod"] + ":CONFIG")
@@ -445,7 +447,8 @@ def factory_search(h):
     """One discoverer per generation, each searched exactly once with the caller's remote host; the result is
     the union of what both found, whichever finishes first."""
     if not h.symbolic:
-        return
+        from replay import native_readings as NR
+        return NR.factory_search(h, GEN)
     w = World(h.it)
     host = h.choice("remote_host", [None, "192.168.1.9"])
     found = {4: [h.new(GEN[4]["mod"] + ":At4DiscoveryResponse", airtouch_id=f"a{i}", host=f"10.0.4.{i}", serial="s")
